@@ -1407,6 +1407,14 @@ Proof.
   - (* PN7 *)
     destruct (dq s (sfrom s u)) as [|z rest]; cbn [fst thr set_thr]; rewrite upd_same; unfold popT; cbn [pc with_pc];
       [discriminate|]. intros E. inversion E; subst. exists k. auto.
+  - (* PN8 *)
+    destruct L as [Hk _]. destruct (Z.eqb (fstt s x) 5).
+    + cbn [fst thr set_thr]. rewrite upd_same. unfold popT; cbn [pc with_pc]. discriminate.
+    + rewrite fst_let2. unfold next_ret, kokN in *.
+      destruct k; try contradiction; destruct x; dfinish; try destruct (Z.eqb st 3);
+        cbn [fst thr set_thr]; rewrite ?upd_same; unfold popT;
+        first [ cbn [pc with_pc]; discriminate
+              | match goal with B : startpc (pc ?T) |- _ => destruct (pc T); try contradiction; discriminate end ].
   - (* PL1 *)
     intros E.
     destruct (lb_effect s u (thr s u) k (2 * (u + 1)) (length (dq s (sfrom s u))) 50 None Hu (Nat.le_refl _))
@@ -1422,3 +1430,390 @@ Proof.
     + rewrite B' in E. discriminate.
     + unfold popT in E. rewrite C in E. discriminate.
 Qed.
+
+Lemma lb_fstt S0 u T k i lc ms rc : fstt (fst (lb_continue S0 u T k i lc ms rc)) = fstt S0.
+Proof.
+  unfold lb_continue. cbv zeta. destruct (lb_scan _ _ _ _ _ _ _ _) as [dqs r].
+  destruct r as [[[[[? ?] ?] ?] ?]|]; [reflexivity|]. unfold lb_ret. destruct k; dmatch; reflexivity.
+Qed.
+
+(* only park-saving writes SAVING *)
+Lemma fs5_effect s u g : fstt (fst (step s u)) g = 5%Z -> fstt s g = 5%Z \/ pc (thr s u) = PP2 g.
+Proof.
+  intros H. unfold step in H. destruct (pc (thr s u)) eqn:Hpc.
+  all: rewrite ?fst_let2 in H; rewrite ?lb_fstt in H.
+  all: try (unfold next_ret in H).
+  all: repeat match type of H with
+       | context [match ?b with _ => _ end] =>
+           lazymatch b with context [match _ with _ => _ end] => fail | _ => destruct b end
+       end.
+  all: cbn [fst fstt set_thr set_fs set_wq set_dq set_from set_to] in H; unfold upd in H.
+  all: try (left; exact H).
+  all: try (match type of H with context [Nat.eqb ?a ?b] => destruct (Nat.eqb_spec a b) end;
+            [try discriminate H; subst; auto|left; exact H]).
+Qed.
+
+(* ---------------- the per-thread bypass invariant ---------------- *)
+(* F / S = the deques of one thread, pd = 1 iff it has popped a fiber whose state
+   it is about to examine, c = number of fibers on the thread, b / st / m = the
+   ghost counters *)
+Record GT (F S : list nat) (pd c : nat) (b st m : nat -> nat) : Prop := {
+  gS : forall g, In g S -> b g + length F + pd + 1 <= m g + st g;
+  gF : forall p g, nth_error F p = Some g -> b g + p + pd + 2 <= 2 * m g + st g;
+  gC : forall g, In g F \/ In g S -> c <= m g
+}.
+
+Definition poppedN (s : st) (g : nat) : Prop := exists t, t < nthr s /\ popT (thr s t) = Some g.
+
+Record GNinv (x : nst) : Prop := {
+  q_thr : forall t, t < nthr (nbase x) ->
+            GT (FqN (nbase x) t) (SqN (nbase x) t) (pendT (thr (nbase x) t)) (cntT (nbase x) t)
+               (nbyp x) (nstl x) (nmx x);
+  q_all : forall g, nbyp x g <= 2 * (nmx x g - 1) + nstl x g;
+  q_zero : forall g, fstt (nbase x) g = 5%Z \/ (Qcn (dq (nbase x)) (nthr (nbase x)) g = 0 /\ ~ poppedN (nbase x) g) ->
+             nbyp x g = 0
+}.
+
+(* the other threads: a deque may lose its last element, nothing else changes *)
+Definition shrinks (l l' : list nat) : Prop := l' = l \/ exists x, l = l' ++ [x].
+
+Lemma shrinks_In l l' g : shrinks l l' -> In g l' -> In g l.
+Proof. intros [->|[x ->]] H; auto. apply in_or_app; auto. Qed.
+Lemma shrinks_len l l' : shrinks l l' -> length l' <= length l.
+Proof. intros [->|[x ->]]; auto. rewrite app_length. lia. Qed.
+Lemma shrinks_nth l l' p g : shrinks l l' -> nth_error l' p = Some g -> nth_error l p = Some g.
+Proof.
+  intros [->|[x ->]] H; auto. rewrite nth_error_app1; auto. apply nth_error_Some. congruence.
+Qed.
+
+Lemma GT_frame F S pd c b st m F' S' c' b' st' m' :
+  GT F S pd c b st m -> shrinks F F' -> shrinks S S' -> c' <= c ->
+  (forall g, In g F' \/ In g S' -> b' g = b g /\ st' g = st g /\ m' g = m g) ->
+  GT F' S' pd c' b' st' m'.
+Proof.
+  intros [HS HF HC] HsF HsS Hc He. constructor.
+  - intros g Hg. destruct (He g (or_intror Hg)) as (-> & -> & ->).
+    pose proof (HS g (shrinks_In _ _ _ HsS Hg)). pose proof (shrinks_len _ _ HsF). lia.
+  - intros p g Hg. assert (Hin : In g F') by (eapply nth_error_In; eauto).
+    destruct (He g (or_introl Hin)) as (-> & -> & ->). apply HF. eapply shrinks_nth; eauto.
+  - intros g Hg. destruct (He g Hg) as (_ & _ & ->).
+    assert (c <= m g); [|lia]. apply HC. destruct Hg; [left|right]; eapply shrinks_In; eauto.
+Qed.
+
+(* the stepping thread, when its deques do not change: the counters of the fibers
+   on it may only grow in m *)
+Lemma GT_same F S pd pd' c c' b st m b' st' m' :
+  GT F S pd c b st m -> pd' <= pd ->
+  (forall g, In g F \/ In g S -> b' g = b g /\ st g <= st' g /\ m g <= m' g /\ c' <= m' g) ->
+  GT F S pd' c' b' st' m'.
+Proof.
+  intros [HS HF HC] Hpd Hm. constructor.
+  - intros g Hg. destruct (Hm g (or_intror Hg)) as (-> & A & B & C). pose proof (HS g Hg). lia.
+  - intros p g Hg. assert (Hin : In g F) by (eapply nth_error_In; eauto).
+    destruct (Hm g (or_introl Hin)) as (-> & A & B & C). pose proof (HF p g Hg). lia.
+  - intros g Hg. apply (Hm g Hg).
+Qed.
+
+(* schedule() / SAVING re-queue: f (counter 0) is pushed on S *)
+Lemma GT_push F S c c' b st m b' st' m' f :
+  GT F S 0 c b st m ->
+  (forall g, In g F \/ In g S -> b' g = b g /\ st g <= st' g /\ m g <= m' g /\ c' <= m' g) ->
+  b' f = 0 -> c' <= m' f -> length F + 1 <= c' ->
+  GT F (f :: S) 0 c' b' st' m'.
+Proof.
+  intros [HS HF HC] He Hf Hcf Hl. constructor.
+  - intros g [<-|Hg]; [lia|]. destruct (He g (or_intror Hg)) as (-> & E & A & B). pose proof (HS g Hg). lia.
+  - intros p g Hg. assert (Hin : In g F) by (eapply nth_error_In; eauto).
+    destruct (He g (or_introl Hin)) as (-> & E & A & B). pose proof (HF p g Hg). lia.
+  - intros g [Hg|[<-|Hg]]; auto; [apply (He g (or_introl Hg))|apply (He g (or_intror Hg))].
+Qed.
+
+(* next(): the swap when the drained deque is empty *)
+Lemma GT_swap X c c' b st m b' st' m' :
+  GT [] X 0 c b st m -> length X <= c ->
+  (forall g, In g X -> b' g = b g /\ st g <= st' g /\ m g <= m' g /\ c' <= m' g) ->
+  GT X [] 0 c' b' st' m'.
+Proof.
+  intros [HS HF HC] Hl He. constructor.
+  - intros g [].
+  - intros p g Hg. assert (Hin : In g X) by (eapply nth_error_In; eauto).
+    assert (p < length X) by (apply nth_error_Some; congruence).
+    destruct (He g Hin) as (-> & E & A & B). pose proof (HS g Hin). pose proof (HC g (or_intror Hin)).
+    cbn [length] in *. lia.
+  - intros g [Hg|[]]. apply (He g Hg).
+Qed.
+
+(* next(): pop_bottom *)
+Lemma GT_pop y F S c c' b st m b' st' m' :
+  GT (y :: F) S 0 c b st m ->
+  (forall g, In g F \/ In g S -> b' g = b g /\ st g <= st' g /\ m g <= m' g /\ c' <= m' g) ->
+  GT F S 1 c' b' st' m'.
+Proof.
+  intros [HS HF HC] He. constructor.
+  - intros g Hg. destruct (He g (or_intror Hg)) as (-> & A & B & C). pose proof (HS g Hg). cbn [length] in *. lia.
+  - intros p g Hg. assert (Hin : In g F) by (eapply nth_error_In; eauto).
+    destruct (He g (or_introl Hin)) as (-> & A & B & C). pose proof (HF (Datatypes.S p) g Hg). lia.
+  - intros g Hg. apply (He g Hg).
+Qed.
+
+(* next() returns the popped fiber: the others are bypassed once more *)
+Lemma GT_hand F S c c' b st m b' st' m' :
+  GT F S 1 c b st m ->
+  (forall g, In g F \/ In g S -> b' g <= b g + 1 /\ st g <= st' g /\ m g <= m' g /\ c' <= m' g) ->
+  GT F S 0 c' b' st' m'.
+Proof.
+  intros [HS HF HC] He. constructor.
+  - intros g Hg. destruct (He g (or_intror Hg)) as (A & E & B & C). pose proof (HS g Hg). lia.
+  - intros p g Hg. assert (Hin : In g F) by (eapply nth_error_In; eauto).
+    destruct (He g (or_introl Hin)) as (A & E & B & C). pose proof (HF p g Hg). lia.
+  - intros g Hg. apply (He g Hg).
+Qed.
+
+(* load_balance pushes a stolen fiber x (counter 0) in front of F *)
+Lemma GT_pushF F S c c' b st m b' st' m' x :
+  GT F S 0 c b st m ->
+  (forall g, In g F \/ In g S -> b' g = b g /\ st g + 1 <= st' g /\ m g <= m' g /\ c' <= m' g) ->
+  b' x = 0 -> c' <= m' x -> 1 <= c' ->
+  GT (x :: F) S 0 c' b' st' m'.
+Proof.
+  intros [HS HF HC] He Hx Hcx Hc1. constructor.
+  - intros g Hg. destruct (He g (or_intror Hg)) as (-> & E & A & B). pose proof (HS g Hg). cbn [length]. lia.
+  - intros [|p] g Hg; cbn [nth_error] in Hg.
+    + inversion Hg; subst. lia.
+    + assert (Hin : In g F) by (eapply nth_error_In; eauto).
+      destruct (He g (or_introl Hin)) as (-> & E & A & B). pose proof (HF p g Hg). lia.
+  - intros g [[<-|Hg]|Hg]; auto; [apply (He g (or_introl Hg))|apply (He g (or_intror Hg))].
+Qed.
+
+(* ---------------- exclusivity of places (from conservation) ---------------- *)
+Lemma dq_excl N own s d d' g : InvN N own s -> 1 <= d <= 2 * nthr s -> 1 <= d' <= 2 * nthr s ->
+  In g (dq s d) -> In g (dq s d') -> d = d'.
+Proof.
+  intros I Hd Hd' H1 H2. destruct (Nat.eq_dec d d'); auto. exfalso.
+  apply cnt_In in H1. apply cnt_In in H2.
+  pose proof (Qcn_two (dq s) (nthr s) d d' g Hd Hd' n). pose proof (n_once N s g (m_fib N own s I g)). lia.
+Qed.
+
+Lemma held_dq_excl N own s t d g : InvN N own s -> t < nthr s -> 1 <= d <= 2 * nthr s ->
+  In g (held (thr s t)) -> ~ In g (dq s d).
+Proof.
+  intros I Ht Hd H1 H2. apply cnt_In in H1. apply cnt_In in H2.
+  pose proof (Hcn_term (thr s) (nthr s) t g Ht). pose proof (Qcn_term (dq s) (nthr s) d g Hd).
+  pose proof (n_once N s g (m_fib N own s I g)). lia.
+Qed.
+
+Lemma inqN_spec s t g : inqN s t g = true <-> In g (dq s (2 * t + 1)) \/ In g (dq s (2 * t + 2)).
+Proof.
+  unfold inqN. rewrite existsb_exists, <- in_app_iff. split.
+  - intros (y & Hy & E). apply Nat.eqb_eq in E. subst. exact Hy.
+  - intros H. exists g. split; auto. apply Nat.eqb_refl.
+Qed.
+
+Lemma inqN_false s t g : ~ In g (dq s (2 * t + 1)) -> ~ In g (dq s (2 * t + 2)) -> inqN s t g = false.
+Proof.
+  intros A B. destruct (inqN s t g) eqn:E; auto. apply inqN_spec in E. tauto.
+Qed.
+
+Lemma own_FS N own s t g : InvN N own s -> t < nthr s ->
+  (In g (FqN s t) \/ In g (SqN s t) <-> In g (dq s (2 * t + 1)) \/ In g (dq s (2 * t + 2))).
+Proof.
+  intros I Ht. unfold FqN, SqN. destruct (m_from N own s I t Ht) as [E|E]; rewrite E.
+  - replace (4 * t + 3 - (2 * t + 1)) with (2 * t + 2) by lia. tauto.
+  - replace (4 * t + 3 - (2 * t + 2)) with (2 * t + 1) by lia. tauto.
+Qed.
+
+Lemma own_range N own s t : InvN N own s -> t < nthr s ->
+  1 <= sfrom s t <= 2 * nthr s /\ 1 <= 4 * t + 3 - sfrom s t <= 2 * nthr s /\
+  sfrom s t <> 4 * t + 3 - sfrom s t /\
+  (sfrom s t = 2 * t + 1 \/ sfrom s t = 2 * t + 2) /\
+  (4 * t + 3 - sfrom s t = 2 * t + 1 \/ 4 * t + 3 - sfrom s t = 2 * t + 2).
+Proof. intros I Ht. destruct (m_from N own s I t Ht); lia. Qed.
+
+Lemma cntT_FS N own s t : InvN N own s -> t < nthr s ->
+  cntT s t = length (held (thr s t)) + length (FqN s t) + length (SqN s t).
+Proof.
+  intros I Ht. unfold cntT, FqN, SqN. destruct (m_from N own s I t Ht) as [E|E]; rewrite E.
+  - replace (4 * t + 3 - (2 * t + 1)) with (2 * t + 2) by lia. lia.
+  - replace (4 * t + 3 - (2 * t + 2)) with (2 * t + 1) by lia. lia.
+Qed.
+
+Lemma inqN_other N own s t u g : InvN N own s -> t < nthr s -> u < nthr s -> t <> u ->
+  In g (dq s (2 * t + 1)) \/ In g (dq s (2 * t + 2)) -> inqN s u g = false.
+Proof.
+  intros I Ht Hu Hne Hg. apply inqN_false; intros Hq; destruct Hg as [Hg|Hg].
+  - pose proof (dq_excl N own s (2 * u + 1) (2 * t + 1) g I ltac:(lia) ltac:(lia) Hq Hg). lia.
+  - pose proof (dq_excl N own s (2 * u + 1) (2 * t + 2) g I ltac:(lia) ltac:(lia) Hq Hg). lia.
+  - pose proof (dq_excl N own s (2 * u + 2) (2 * t + 1) g I ltac:(lia) ltac:(lia) Hq Hg). lia.
+  - pose proof (dq_excl N own s (2 * u + 2) (2 * t + 2) g I ltac:(lia) ltac:(lia) Hq Hg). lia.
+Qed.
+
+(* ---------------- one step preserves the bypass invariant ---------------- *)
+Section GStep.
+  Variables (N : nat) (own : nat -> nat) (x : nst) (u : nat).
+  Hypothesis I0 : InvN N own (nbase x).
+  Hypothesis G : GNinv x.
+  Hypothesis Hu : u < nthr (nbase x).
+  Let s := nbase x.
+  Let s' := fst (step s u).
+  Let I' : InvN N own s' := stepN_inv N own s u I0 Hu.
+  Let En : nthr s' = nthr s := step_nthr s u.
+
+  Lemma handout_held y : handout s u = Some y -> In y (held (thr s u)) /\ exists k, pc (thr s u) = PN8 k y.
+  Proof.
+    unfold handout, held. destruct (pc (thr s u)); try discriminate.
+    destruct (Z.eqb (fstt s x0) 5); [discriminate|]. intros E; inversion E; subst. split; [left; reflexivity|eauto].
+  Qed.
+
+  Lemma stolen_held y : stolen s s' u = Some y -> In y (held (thr s' u)).
+  Proof.
+    unfold stolen, held. destruct (pc (thr s u)); try discriminate;
+      destruct (pc (thr s' u)); try discriminate; intros E; inversion E; subst; left; reflexivity.
+  Qed.
+
+  (* a fiber that is neither handed out nor stolen in this step and is not on u's
+     deques keeps its counters *)
+  Lemma ghost_same g :
+    (forall y, handout s u = Some y -> g <> y) -> (forall y, stolen s s' u = Some y -> g <> y) ->
+    inqN s u g = false -> inqN s' u g = false ->
+    nbyp (nstep x u) g = nbyp x g /\ nstl (nstep x u) g = nstl x g /\ nmx (nstep x u) g = nmx x g.
+  Proof.
+    intros Hh Hs Hq Hq'. unfold nstep. cbn [nbyp nstl nmx]. fold s. fold s'. rewrite Hq, Hq'.
+    assert (R : is_some_eq (handout s u) g || is_some_eq (stolen s s' u) g = false).
+    { apply orb_false_iff. split.
+      - destruct (handout s u) as [y|] eqn:E; cbn; auto. apply Nat.eqb_neq. apply Hh; auto.
+      - destruct (stolen s s' u) as [y|] eqn:E; cbn; auto. apply Nat.eqb_neq. apply Hs; auto. }
+    rewrite R. rewrite andb_false_r. repeat split; destruct (handout s u); auto; destruct (pc (thr s u)); auto.
+  Qed.
+
+  (* the deques of the other threads only shrink *)
+  Lemma other_shrinks t d : t < nthr s -> t <> u -> (d = 2 * t + 1 \/ d = 2 * t + 2) ->
+    shrinks (dq s d) (dq s' d).
+  Proof.
+    intros Ht Hne Hd. pose proof (own_range N own s u I0 Hu) as (A1 & A2 & A3 & A4 & A5).
+    destruct (dq_effect N own s u d I0 Hu) as [E|y E _ _ _ _|f E _ [[-> _]|[-> _]]|y k E _ _ ->].
+    - left; exact E.
+    - right. exists y. exact E.
+    - exfalso. lia.
+    - exfalso. lia.
+    - exfalso. lia.
+  Qed.
+
+  Lemma gn_other t : t < nthr s -> t <> u ->
+    GT (FqN s' t) (SqN s' t) (pendT (thr s' t)) (cntT s' t) (nbyp (nstep x u)) (nstl (nstep x u)) (nmx (nstep x u)).
+  Proof.
+    intros Ht Hne. destruct (step_frame s u t Hne) as (Et & Ef & _). fold s' in Et, Ef.
+    pose proof (own_range N own s t I0 Ht) as (A1 & A2 & A3 & A4 & A5).
+    pose proof (own_range N own s u I0 Hu) as (B1 & B2 & B3 & B4 & B5).
+    assert (HF : shrinks (FqN s t) (FqN s' t)).
+    { unfold FqN. rewrite Ef. apply (other_shrinks t); auto. }
+    assert (HS : shrinks (SqN s t) (SqN s' t)).
+    { unfold SqN. rewrite Ef. apply (other_shrinks t); auto. }
+    assert (Ht' : t < nthr s') by (rewrite En; exact Ht).
+    rewrite Et. eapply GT_frame; [apply (q_thr x G t Ht)|exact HF|exact HS| |].
+    - fold s. rewrite (cntT_FS N own s t I0 Ht), (cntT_FS N own s' t I' Ht'), Et.
+      pose proof (shrinks_len _ _ HF). pose proof (shrinks_len _ _ HS). lia.
+    - intros g Hg.
+      assert (Hg0 : In g (FqN s t) \/ In g (SqN s t)).
+      { destruct Hg; [left|right]; eapply shrinks_In; eauto. }
+      apply (own_FS N own s t g I0 Ht) in Hg0. apply (own_FS N own s' t g I' Ht') in Hg.
+      apply ghost_same.
+      + intros y Hy. destruct (handout_held y Hy) as [Hin _]. intros ->.
+        destruct Hg0 as [Hg0|Hg0];
+          [apply (held_dq_excl N own s u (2 * t + 1) y I0 Hu ltac:(lia) Hin Hg0)
+          |apply (held_dq_excl N own s u (2 * t + 2) y I0 Hu ltac:(lia) Hin Hg0)].
+      + intros y Hy. pose proof (stolen_held y Hy) as Hin. intros ->.
+        assert (Hu' : u < nthr s') by (rewrite En; exact Hu).
+        destruct Hg as [Hg|Hg];
+          [apply (held_dq_excl N own s' u (2 * t + 1) y I' Hu' ltac:(rewrite En; lia) Hin Hg)
+          |apply (held_dq_excl N own s' u (2 * t + 2) y I' Hu' ltac:(rewrite En; lia) Hin Hg)].
+      + apply (inqN_other N own s t u g I0 Ht Hu Hne Hg0).
+      + apply (inqN_other N own s' t u g I' Ht' ltac:(rewrite En; exact Hu) Hne Hg).
+  Qed.
+
+  (* ---- the stepping thread ---- *)
+  Lemma pend_pop T : pendT T = match popT T with Some _ => 1 | None => 0 end.
+  Proof. unfold pendT, popT. destruct (pc T); reflexivity. Qed.
+
+  Lemma stolen_pc y : stolen s s' u = Some y ->
+    (exists k, pc (thr s u) = PL1 k) \/ (exists k i a b c z, pc (thr s u) = PL2 k i a b c z).
+  Proof. unfold stolen. destruct (pc (thr s u)); try discriminate; eauto 10. Qed.
+
+  Lemma handout_pc y : handout s u = Some y -> exists k, pc (thr s u) = PN8 k y /\ fstt s y <> 5%Z.
+  Proof.
+    unfold handout. destruct (pc (thr s u)); try discriminate.
+    destruct (Z.eqb_spec (fstt s x0) 5); [discriminate|]. intros E; inversion E; subst. eauto.
+  Qed.
+
+  (* no deque changes unless the pc is one of schedule / pop / re-queue / load_balance *)
+  Lemma dq_same_pc d :
+    (forall f k, pc (thr s u) <> PSched f k) -> (forall k, pc (thr s u) <> PN7 k) ->
+    (forall k y, pc (thr s u) <> PN9 k y) -> (forall k, pc (thr s u) <> PL1 k) ->
+    (forall k i a b c z, pc (thr s u) <> PL2 k i a b c z) -> dq s' d = dq s d.
+  Proof.
+    intros H1 H2 H3 H4 H5.
+    destruct (dq_effect N own s u d I0 Hu) as [E|y E Hst _ _ _|f E _ [[_ (k & i & a & b & c & Hp)]|[_ (k & [Hp|Hp])]]|y k E Hp _ _].
+    - exact E.
+    - exfalso. destruct (stolen_pc y Hst) as [(k & Hp)|(k & i & a & b & c & z & Hp)]; [eapply H4|eapply H5]; eauto.
+    - exfalso. eapply H5; eauto.
+    - exfalso. eapply H1; eauto.
+    - exfalso. eapply H3; eauto.
+    - exfalso. eapply H2; eauto.
+  Qed.
+
+  (* a fiber on u's deques after the step was neither handed out nor stolen in it,
+     and its nmx is the maximum with u's current population *)
+  Lemma own_after g : In g (dq s' (2 * u + 1)) \/ In g (dq s' (2 * u + 2)) ->
+    (forall y, stolen s s' u = Some y -> g <> y) /\ inqN s' u g = true.
+  Proof.
+    intros Hg. split; [|apply inqN_spec; exact Hg].
+    intros y Hy. pose proof (stolen_held y Hy) as Hin. intros ->.
+    assert (Hu' : u < nthr s') by (rewrite En; exact Hu).
+    destruct Hg as [Hg|Hg];
+      [apply (held_dq_excl N own s' u (2 * u + 1) y I' Hu' ltac:(rewrite En; lia) Hin Hg)
+      |apply (held_dq_excl N own s' u (2 * u + 2) y I' Hu' ltac:(rewrite En; lia) Hin Hg)].
+  Qed.
+
+  Lemma rst_false g :
+    (forall y, handout s u = Some y -> g <> y) -> (forall y, stolen s s' u = Some y -> g <> y) ->
+    is_some_eq (handout s u) g || is_some_eq (stolen s s' u) g = false.
+  Proof.
+    intros Hh Hs. apply orb_false_iff. split.
+    - destruct (handout s u) as [y|] eqn:E; cbn; auto. apply Nat.eqb_neq. apply Hh; auto.
+    - destruct (stolen s s' u) as [y|] eqn:E; cbn; auto. apply Nat.eqb_neq. apply Hs; auto.
+  Qed.
+
+  (* a fiber held by u (and not being examined at PN8) has bypass counter 0 *)
+  Lemma held_byp0 f : In f (held (thr s u)) -> popT (thr s u) <> Some f -> nbyp x f = 0.
+  Proof.
+    intros Hin Hp. apply (q_zero x G). right. fold s. split.
+    - apply cnt_In in Hin. pose proof (Hcn_term (thr s) (nthr s) u f Hu).
+      pose proof (n_once N s f (m_fib N own s I0 f)). lia.
+    - intros (t & Ht & Hpt). destruct (Nat.eq_dec t u) as [->|Hne]; [congruence|].
+      assert (Hin' : In f (held (thr s t))).
+      { unfold popT in Hpt. unfold held. destruct (pc (thr s t)); try discriminate. inversion Hpt; subst. left; reflexivity. }
+      apply cnt_In in Hin. apply cnt_In in Hin'.
+      pose proof (Hcn_two (thr s) (nthr s) t u f Ht Hu Hne). pose proof (n_once N s f (m_fib N own s I0 f)). lia.
+  Qed.
+
+  (* the ghost counters after the step, for a fiber that is not reset *)
+  Lemma ghost_vals g :
+    is_some_eq (handout s u) g || is_some_eq (stolen s s' u) g = false ->
+    (handout s u = None -> nbyp (nstep x u) g = nbyp x g) /\
+    nbyp (nstep x u) g <= nbyp x g + 1 /\
+    nstl x g <= nstl (nstep x u) g /\
+    ((exists k i a b c z, pc (thr s u) = PL2 k i a b c z) -> inqN s u g = true ->
+       nstl (nstep x u) g = S (nstl x g)) /\
+    (inqN s' u g = true -> nmx (nstep x u) g = Nat.max (nmx x g) (cntT s' u)).
+  Proof.
+    intros R. unfold nstep; cbn [nbyp nstl nmx]. fold s; fold s'. rewrite R.
+    split; [intros ->; reflexivity|]. split.
+    { destruct (handout s u); [destruct (_ && _)|]; lia. }
+    split. { destruct (pc (thr s u)); try lia. destruct (inqN s u g); lia. }
+    split. { intros (k & i & a & b & c & z & ->) ->. reflexivity. }
+    intros ->. reflexivity.
+  Qed.
+
+  Lemma own_dq_after d g : (d = 2 * u + 1 \/ d = 2 * u + 2) -> In g (dq s' d) ->
+    In g (dq s' (2 * u + 1)) \/ In g (dq s' (2 * u + 2)).
+  Proof. intros [->| ->] H; auto. Qed.
+End GStep.
